@@ -7,6 +7,10 @@
 (* and of the left fold starting from NoOp in routing/messages_handler.go       *)
 (* (getSPOEReqActions / getSPOERespActions) and runner/plugin_runner.go         *)
 (* (runOnRequest / runOnResponse): one step of Next = one iteration of the loop. *)
+(* Actions are values: the result of a fold depends only on the values of its    *)
+(* sequence.  The code must therefore not change an action (or its header map)   *)
+(* it was handed - checked on the real code by histories of folds that share     *)
+(* action instances and header map objects, each fold judged on its own.         *)
 (*                                                                              *)
 (* Bug selects a deliberately broken variant (non-vacuity: TLC must refute it)   *)
 (* or a variant the property statement does not forbid (TLC must accept it):     *)
@@ -47,7 +51,7 @@ ReqPrioritize(x, y) ==   \* x.ReqPrioritize(y)
       [] x.k = "modreq" ->
             (CASE y.k = "early" -> y
               [] y.k = "noop" -> x
-              [] y.k = "modh" -> [x EXCEPT !.h = MergeHeaders(x.h, y.h)]       \* receiver updated in place
+              [] y.k = "modh" -> [x EXCEPT !.h = MergeHeaders(x.h, y.h)]       \* a new action with the receiver's other fields
               [] y.k = "modreq" -> ModReqFrom(x, y)
               [] y.k = "gen" -> [Blank EXCEPT !.k = "gen", !.h = MergeHeaders(x.h, y.h), !.rm = y.rm, !.b = y.b])
       [] x.k = "gen" ->
